@@ -318,6 +318,49 @@ fn durable_order(req: &Value) -> Value {
            "violates": first_ok && second_ok == Some(true) && in_memory != recovered})
 }
 
+/// C11 D2: a durable write is started right after the checkpoint saved its snapshot (schedule hook); after a restart from
+/// snapshot + log the acknowledged write must still be there.
+fn checkpoint_race(req: &Value) -> Value {
+    use std::sync::{mpsc, Arc, Mutex};
+    use tensor_store::{TensorData, TensorStore, TensorValue, ScalarValue};
+    let dir = tmpdir();
+    let (path, snap) = (dir.join("race.wal"), dir.join("race.snap"));
+    let val = |i: i64| { let mut d = TensorData::new(); d.set("v", TensorValue::Scalar(ScalarValue::Int(i))); d };
+    let store = match TensorStore::open_durable(&path, WalConfig::default()) { Ok(s) => s, Err(e) => return json!({"error": e.to_string()}) };
+    for i in 0..req["records"].as_u64().unwrap_or(1) {
+        let _ = store.put_durable(format!("old{i}"), val(i as i64));
+    }
+    let slot: Arc<Mutex<Option<std::thread::JoinHandle<bool>>>> = Arc::new(Mutex::new(None));
+    let main_thread = std::thread::current().id();
+    let (s2, slot2) = (store.clone(), slot.clone());
+    *tensor_store::slab_router::VERIF_DURABLE_WINDOW.write().unwrap() = Some(Arc::new(move |k: &str| {
+        if std::thread::current().id() != main_thread || !k.starts_with("checkpoint") {
+            return;
+        }
+        let (tx, rx) = mpsc::channel();
+        let s3 = s2.clone();
+        let h = std::thread::spawn(move || {
+            let mut d = TensorData::new();
+            d.set("v", TensorValue::Scalar(ScalarValue::Int(42)));
+            let r = s3.put_durable("during-checkpoint", d).is_ok();
+            let _ = tx.send(());
+            r
+        });
+        let _ = rx.recv_timeout(std::time::Duration::from_millis(300));
+        *slot2.lock().unwrap() = Some(h);
+    }));
+    let cp = store.checkpoint(&snap).is_ok();
+    *tensor_store::slab_router::VERIF_DURABLE_WINDOW.write().unwrap() = None;
+    let acked = slot.lock().unwrap().take().map(|h| h.join().unwrap_or(false));
+    let seen = store.get("during-checkpoint").is_ok();
+    drop(store);
+    let rec = TensorStore::recover(&path, &WalConfig::default(), Some(&snap));
+    let recovered = rec.as_ref().map(|s| s.get("during-checkpoint").is_ok()).unwrap_or(false);
+    let _ = std::fs::remove_dir_all(&dir);
+    json!({"checkpoint_ok": cp, "write_acknowledged": acked, "readers_saw_it": seen, "present_after_restart": recovered, "recover_error": rec.err().map(|e| e.to_string()),
+           "violates": cp && acked == Some(true) && seen && !recovered})
+}
+
 /// W5: r1, cut inside it, reopen, append r2, cut inside it, reopen, append r3, restart; which records the final replay has.
 macro_rules! double_crash {
     ($name:ident, $open:expr, $rec:expr) => {
@@ -361,6 +404,7 @@ pub fn handle(op: &str, req: &Value) -> Option<Value> {
     Some(match op {
         "durable_op" => durable_op(req),
         "durable_order" => durable_order(req),
+        "checkpoint_race" => checkpoint_race(req),
         "durable_checkpoint" => durable_checkpoint(req),
         "durable_rotation" => {
             // acknowledged puts across a log rotation (no checkpoint), then recovery from the log alone
